@@ -147,6 +147,18 @@ CHECKS["C19"] = dict(
          "(C07); response reordering inside the actor is a stated scheduling assumption",
     design_ref="5 C19")
 
+CHECKS["C14"] = dict(
+    engine="ownership",
+    technique="TLA+ spec Ownership.tla; TLC enumerates the complete finite space (57 views x 60 residues) and every view is "
+              "installed in real nodes (one process per live local id, genuine liveness check) where ownership and routing "
+              "are compared with the abstract requirement",
+    text="The space is finite: cluster sizes 1..5, every alive subset, every hash residue of lcm(1..5). TLC checks "
+         "ExactlyOneOwner and RoutingAgrees on all of it (the two pre-fix formulas are negative controls), and every view "
+         "is replayed on the real node wiring for every live local id: the registry actor's range, the node manager's "
+         "range and route_addr for 60 keys.",
+    note="views installed through UpdateNodes/ActiveNode + an expiry hook that runs the real check_node_status; "
+         "node ids are 1..n", design_ref="5 C14")
+
 NOT_YET = {}
 
 
